@@ -484,11 +484,18 @@ pub fn cmd_steer(path: &str, out: &str) {
 // ------------------------------------------------------------------------------------------
 // the public per-record / record-set entry points on real readers
 
-#[derive(Default)]
 struct RecOut {
     head: Vec<u8>,
     n: usize,
     stale: bool,
+}
+/// per-record outputs made by `Default::default()` (the entry points without initialiser closures): counted per run
+static RECOUT_DEFAULTS: AtomicI64 = AtomicI64::new(0);
+impl Default for RecOut {
+    fn default() -> RecOut {
+        RECOUT_DEFAULTS.fetch_add(1, Ordering::SeqCst);
+        RecOut { head: vec![], n: 0, stale: false }
+    }
 }
 
 #[derive(Debug)]
@@ -740,6 +747,8 @@ macro_rules! records_runner {
             use seq_io::$m::Record as _;
             let reader = seq_io::$m::Reader::with_capacity(std::io::Cursor::new(c.x.clone()), c.cap);
             let ct2 = ct.clone();
+            let ct3 = ct.clone();
+            let big = c.big;
             let stop_after = c.stop_after;
             let calls2 = calls.clone();
             let mut ncalls = 0usize;
@@ -748,13 +757,22 @@ macro_rules! records_runner {
                 c.nw,
                 c.q,
                 move |rec: seq_io::$m::RefRecord, d: &mut RecOut| {
-                    ct2.jitter();
+                    if !big {
+                        ct2.jitter();
+                    }
                     d.stale = false;
                     d.head = rec.head().to_vec();
                     d.n = rec.seq().len();
                 },
                 move |rec: seq_io::$m::RefRecord, d: &RecOut| {
                     ncalls += 1;
+                    ct3.ncalls.fetch_add(1, Ordering::SeqCst);
+                    if d.stale || d.head != rec.head() || d.n != rec.seq().len() {
+                        ct3.nbad.fetch_add(1, Ordering::SeqCst);
+                    }
+                    if big {
+                        return None;
+                    }
                     calls2.lock().unwrap().push(format!(
                         "{{\"rec\":{},\"out\":{{\"head\":{},\"n\":{},\"stale\":{}}},\"rawlen\":{},\"tag\":0}}",
                         $recjson(&rec, false, false),
@@ -782,6 +800,7 @@ records_runner!(run_records_fasta, fasta, crate::reader::fa::rec_json, Fasta);
 records_runner!(run_records_fastq, fastq, crate::reader::fq::rec_json, Fastq);
 
 fn run_api(c: &ApiCase, seed: u64) -> String {
+    RECOUT_DEFAULTS.store(0, Ordering::SeqCst);
     let sh: Shared = Arc::new(Mutex::new(Rec::default()));
     let ct = Arc::new(Counters::new(seed, true));
     install_hook(&sh, &ct);
@@ -815,7 +834,7 @@ fn run_api(c: &ApiCase, seed: u64) -> String {
     }
     seq_io::verif::set_hook(None);
     // how sequential record-set reading with the same capacity batches this input (no expectation, just what it does)
-    let set_sizes: Vec<usize> = {
+    let set_sizes: Vec<usize> = std::panic::catch_unwind(|| {
         let mut v = vec![];
         if c.fmt == "fasta" {
             let mut r = seq_io::fasta::Reader::with_capacity(&c.x[..], c.cap);
@@ -837,12 +856,13 @@ fn run_api(c: &ApiCase, seed: u64) -> String {
             }
         }
         v
-    };
+    })
+    .unwrap_or_default();
     let g = sh.lock().unwrap();
     let count = |t: &str, p: &str| -> usize { g.logs.iter().filter(|(n, _)| n.starts_with(t)).map(|(_, e)| e.iter().filter(|v| v["p"] == p).count()).sum() };
     let calls_v = calls.lock().unwrap();
     format!(
-        "{{\"ev\":\"run\",\"big\":{},\"api\":\"{}\",\"fmt\":\"{}\",\"input\":{},\"cap\":{},\"NW\":{},\"Q\":{},\"stop_after\":{},\"rinit_fail\":{},\"recinit_fail_at\":{},\"setinit_fail_at\":{},\"result\":{},\"set_sizes\":{:?},\"calls\":[{}],\"ncalls\":{},\"nbad\":{},\"lead\":{},\"maxsetcap\":{},\"nworks\":{},\"nrecinit\":{},\"nsetinit\":{},\"fills_ok\":{},\"senderr\":{},\"sendend\":{},\"recv_ok\":{},\"jobs_started\":{},\"jobs_finished\":{},\"late_events\":{}}}",
+        "{{\"ev\":\"run\",\"big\":{},\"api\":\"{}\",\"fmt\":\"{}\",\"input\":{},\"cap\":{},\"NW\":{},\"Q\":{},\"stop_after\":{},\"rinit_fail\":{},\"recinit_fail_at\":{},\"setinit_fail_at\":{},\"result\":{},\"set_sizes\":{:?},\"calls\":[{}],\"ncalls\":{},\"nbad\":{},\"lead\":{},\"maxsetcap\":{},\"ndefault\":{},\"nworks\":{},\"nrecinit\":{},\"nsetinit\":{},\"fills_ok\":{},\"senderr\":{},\"sendend\":{},\"recv_ok\":{},\"jobs_started\":{},\"jobs_finished\":{},\"late_events\":{}}}",
         c.big,
         c.api,
         c.fmt,
@@ -861,6 +881,7 @@ fn run_api(c: &ApiCase, seed: u64) -> String {
         ct.nbad.load(Ordering::SeqCst),
         ct.max_lead.load(Ordering::SeqCst),
         ct.maxsetcap.load(Ordering::SeqCst),
+        RECOUT_DEFAULTS.load(Ordering::SeqCst),
         works.lock().unwrap().len(),
         ninit.0.load(Ordering::SeqCst),
         ninit.1.load(Ordering::SeqCst),
@@ -951,7 +972,7 @@ pub fn cmd_api(suite: &Value, out: &str, seed: u64) {
             c.pattern = pat;
             c.x = x;
             c.big = true;
-            c.api = if i % 2 == 0 { "parallel_init".into() } else { "read_parallel".into() };
+            c.api = match i % 4 { 0 => "parallel_init".into(), 1 => "read_parallel".into(), 2 => "records".into(), _ => "parallel".into() };
             c.cap = 8192;
             c.stop_after = 0;
             c.rinit_fail = false;
